@@ -220,13 +220,24 @@ pub const RC_BADVERS: u16 = 16;
 /// (QNAME + 4), 0 if the shape has none; it lets every read of the response
 /// use a concrete offset (a generic decoder walking a buffer that is symbolic
 /// to CBMC exhausted memory on the OPT shapes: measured 14 GB+).
-pub fn check_exchange(req: &[u8], ql: usize, udp: bool, payload: u16, cat_kind: u8, r: &Response, resp: &[u8]) {
+#[derive(Clone, Copy)]
+pub struct Seen {
+    pub responded: bool,
+    pub rcode: u16,
+    pub has_opt: bool,
+}
+
+pub fn check_exchange(req: &[u8], ql: usize, udp: bool, payload: u16, cat_kind: u8, r: &Response, resp: &[u8]) -> Seen {
     let n_req = req.len();
     let scan = ref_scan(req, n_req);
     let n = match r {
         Response::None => {
             assert!(!scan.respond, "[C03] a request that deserves a response got none");
-            return;
+            return Seen {
+                responded: false,
+                rcode: 0,
+                has_opt: false,
+            };
         }
         Response::Single(n) => *n,
     };
@@ -323,8 +334,6 @@ pub fn check_exchange(req: &[u8], ql: usize, udp: bool, payload: u16, cat_kind: 
         };
         assert!(rcode == expect, "[C07] wrong RCODE for an unsupported / unserved query");
         assert!(no_data && !aa, "[C07] NOTIMP/REFUSED/SERVFAIL response carries records or AA");
-        kani::cover!(rcode == RC_NOTIMP, "NOTIMP seen");
-        kani::cover!(rcode == RC_REFUSED || rcode == RC_SERVFAIL, "REFUSED/SERVFAIL seen");
     }
     // ---- C02: the message is exactly header + question + (OPT), every octet accounted for
     assert!(no_data, "[C02] answer/authority counts are non-zero but this family has no zone data");
@@ -339,9 +348,12 @@ pub fn check_exchange(req: &[u8], ql: usize, udp: bool, payload: u16, cat_kind: 
         assert!(be16(resp, body + 3) == payload, "[C09] OPT class must be the server's payload size");
         assert!((opt_ttl >> 16) & 0xff == 0, "[C09] response EDNS version must be 0");
         assert!(be16(resp, body + 9) == 0, "[C02] OPT RDLENGTH does not frame its (empty) RDATA");
-        kani::cover!(rcode == RC_BADVERS, "BADVERS seen");
     }
-    kani::cover!(rcode == RC_FORMERR, "FORMERR seen");
+    Seen {
+        responded: true,
+        rcode,
+        has_opt,
+    }
 }
 
 fn udp_info() -> ReceivedInfo {
@@ -352,12 +364,13 @@ fn tcp_info() -> ReceivedInfo {
     ReceivedInfo::new(IpAddr::V4(Ipv4Addr::new(192, 0, 2, 7)), Transport::Tcp)
 }
 
-fn exchange_udp<C: Catalog>(cat: C, cat_kind: u8, req: &[u8], ql: usize, payload: u16) {
+fn exchange_udp<C: Catalog>(cat: C, cat_kind: u8, req: &[u8], ql: usize, payload: u16) -> Seen {
     let server = server_with(cat, payload);
     let mut resp = [0u8; 512];
     let r = server.handle_message(req, udp_info(), &mut resp);
-    check_exchange(req, ql, true, payload, cat_kind, &r, &resp);
+    let seen = check_exchange(req, ql, true, payload, cat_kind, &r, &resp);
     core::mem::forget(server);
+    seen
 }
 
 fn placeholder(kind: u8) -> CatPlaceholder {
@@ -372,28 +385,30 @@ fn placeholder(kind: u8) -> CatPlaceholder {
 }
 
 
-fn exchange_udp_big<C: Catalog>(cat: C, cat_kind: u8, req: &[u8], ql: usize, payload: u16) {
+fn exchange_udp_big<C: Catalog>(cat: C, cat_kind: u8, req: &[u8], ql: usize, payload: u16) -> Seen {
     // payload up to 1232: the response buffer must be at least that large
     let server = server_with(cat, payload);
     let mut resp = [0u8; 1232];
     let r = server.handle_message(req, udp_info(), &mut resp);
-    check_exchange(req, ql, true, payload, cat_kind, &r, &resp);
+    let seen = check_exchange(req, ql, true, payload, cat_kind, &r, &resp);
     core::mem::forget(server);
+    seen
 }
 
 #[allow(dead_code)]
-fn exchange_tcp<C: Catalog>(cat: C, cat_kind: u8, req: &[u8], ql: usize, payload: u16) {
+fn exchange_tcp<C: Catalog>(cat: C, cat_kind: u8, req: &[u8], ql: usize, payload: u16) -> Seen {
     let server = server_with(cat, payload);
     let mut resp = [0u8; 65535];
     let r = server.handle_message(req, tcp_info(), &mut resp);
-    check_exchange(req, ql, false, payload, cat_kind, &r, &resp);
+    let seen = check_exchange(req, ql, false, payload, cat_kind, &r, &resp);
     core::mem::forget(server);
+    seen
 }
 
 
 // ---------------------------------------------------------------- Q shapes
 
-// @harness props=C01,C02,C03,C04,C07,C08,C09 panics=C01 quick=C03,C07,C01,C02 mem=4 t=900 stubs="S4"
+// @harness props=C01,C02,C03,C04,C07,C08,C09 panics=C01 quick=C03,C07,C01,C02 mem=4 t=900 stubs="S4" kani="--no-assertion-reach-checks"
 //   fn="Server::handle_message,Server::handle_message_with_context,Server::handle_query,Reader::read_question,Writer::add_question,Writer::finish"
 //   bound="UDP; header(ID, 2 flag octets symbolic; QD=1, AN=NS=AR=0) + QNAME 'a.' + symbolic QTYPE + symbolic QCLASS (19 octets); empty catalog; unwind 12"
 //   sym="id:u16, flag octets (all 2^16: QR, opcode, AA, TC, RD, RA, Z, RCODE), qtype:u16, qclass:u16"
@@ -406,10 +421,12 @@ fn srv_q_a_none() {
     let req: [u8; 19] = [
         h[0], h[1], h[2], h[3], 0, 1, 0, 0, 0, 0, 0, 0, 1, b'a', 0, q[0], q[1], q[2], q[3],
     ];
-    exchange_udp(CatNone, CAT_NONE, &req, 7, 512);
+    let seen = exchange_udp(CatNone, CAT_NONE, &req, 7, 512);
+    kani::cover!(seen.responded && seen.rcode == RC_NOTIMP, "NOTIMP seen");
+    kani::cover!(seen.responded && seen.rcode == RC_REFUSED, "REFUSED seen");
 }
 
-// @harness props=C01,C02,C03,C04,C07,C08,C09 panics=C01 quick=C07 mem=4 t=900 stubs="S4"
+// @harness props=C01,C02,C03,C04,C07,C08,C09 panics=C01 quick=C07 mem=4 t=900 stubs="S4" kani="--no-assertion-reach-checks"
 //   fn="Server::handle_message,Server::handle_query"
 //   bound="UDP; same 19-octet Q shape; catalog answers NotYetLoaded for every name; unwind 12"
 //   sym="id, flag octets, qtype, qclass"
@@ -422,10 +439,12 @@ fn srv_q_a_notyet() {
     let req: [u8; 19] = [
         h[0], h[1], h[2], h[3], 0, 1, 0, 0, 0, 0, 0, 0, 1, b'a', 0, q[0], q[1], q[2], q[3],
     ];
-    exchange_udp(placeholder(CAT_NOT_YET), CAT_NOT_YET, &req, 7, 512);
+    let seen = exchange_udp(placeholder(CAT_NOT_YET), CAT_NOT_YET, &req, 7, 512);
+    kani::cover!(seen.responded && seen.rcode == RC_NOTIMP, "NOTIMP seen");
+    kani::cover!(seen.responded && seen.rcode == RC_SERVFAIL, "SERVFAIL seen");
 }
 
-// @harness props=C01,C02,C03,C04,C07,C08,C09 panics=C01 quick=C07 mem=4 t=900 stubs="S4"
+// @harness props=C01,C02,C03,C04,C07,C08,C09 panics=C01 quick=C07 mem=4 t=900 stubs="S4" kani="--no-assertion-reach-checks"
 //   fn="Server::handle_message,Server::handle_query"
 //   bound="UDP; same 19-octet Q shape; catalog answers FailedToLoad for every name; unwind 12"
 //   sym="id, flag octets, qtype, qclass"
@@ -438,10 +457,12 @@ fn srv_q_a_failed() {
     let req: [u8; 19] = [
         h[0], h[1], h[2], h[3], 0, 1, 0, 0, 0, 0, 0, 0, 1, b'a', 0, q[0], q[1], q[2], q[3],
     ];
-    exchange_udp(placeholder(CAT_FAILED), CAT_FAILED, &req, 7, 512);
+    let seen = exchange_udp(placeholder(CAT_FAILED), CAT_FAILED, &req, 7, 512);
+    kani::cover!(seen.responded && seen.rcode == RC_NOTIMP, "NOTIMP seen");
+    kani::cover!(seen.responded && seen.rcode == RC_SERVFAIL, "SERVFAIL seen");
 }
 
-// @harness props=C01,C02,C03,C04,C07,C08,C09 panics=C01 tier=thorough mem=4 t=900 stubs="S4"
+// @harness props=C01,C02,C03,C04,C07,C08,C09 panics=C01 tier=thorough mem=4 t=900 stubs="S4" kani="--no-assertion-reach-checks"
 //   fn="Server::handle_message,Server::handle_query"
 //   bound="UDP; header + root QNAME + symbolic QTYPE/QCLASS (17 octets); empty catalog; unwind 12"
 //   sym="id, flag octets, qtype, qclass"
@@ -452,10 +473,12 @@ fn srv_q_root_none() {
     let h: [u8; 4] = kani::any();
     let q: [u8; 4] = kani::any();
     let req: [u8; 17] = [h[0], h[1], h[2], h[3], 0, 1, 0, 0, 0, 0, 0, 0, 0, q[0], q[1], q[2], q[3]];
-    exchange_udp(CatNone, CAT_NONE, &req, 5, 512);
+    let seen = exchange_udp(CatNone, CAT_NONE, &req, 5, 512);
+    kani::cover!(seen.responded && seen.rcode == RC_NOTIMP, "NOTIMP seen");
+    kani::cover!(seen.responded && seen.rcode == RC_REFUSED, "REFUSED seen");
 }
 
-// @harness props=C01,C02,C03,C04,C07,C08,C09 panics=C01 quick=C03 mem=6 t=1200 stubs="S4,S7"
+// @harness props=C01,C02,C03,C04,C07,C08,C09 panics=C01 quick=C03 mem=6 t=1200 stubs="S4,S7" kani="--no-assertion-reach-checks"
 //   fn="Server::handle_message,Reader::read_question,Name::try_from_compressed,Writer::add_question"
 //   bound="UDP; header + QNAME of two 1-octet labels whose octets are symbolic (all 256 values: mixed case, non-ASCII) + symbolic QTYPE/QCLASS (21 octets); empty catalog; unwind 12"
 //   sym="id, flag octets, 2 label octets, qtype, qclass"
@@ -471,13 +494,15 @@ fn srv_q_xy_none() {
     let req: [u8; 21] = [
         h[0], h[1], h[2], h[3], 0, 1, 0, 0, 0, 0, 0, 0, 1, x, 1, y, 0, q[0], q[1], q[2], q[3],
     ];
-    exchange_udp(CatNone, CAT_NONE, &req, 9, 512);
+    let seen = exchange_udp(CatNone, CAT_NONE, &req, 9, 512);
+    kani::cover!(seen.responded && seen.rcode == RC_NOTIMP, "NOTIMP seen");
+    kani::cover!(seen.responded && seen.rcode == RC_REFUSED, "REFUSED seen");
 }
 
 
 // ------------------------------------------------- header-only and short
 
-// @harness props=C01,C02,C03,C04,C07,C08,C09 panics=C01 quick=C01,C03,C08 mem=4 t=900 stubs="S4"
+// @harness props=C01,C02,C03,C04,C07,C08,C09 panics=C01 quick=C01,C03,C08 mem=4 t=900 stubs="S4" kani="--no-assertion-reach-checks"
 //   fn="Server::handle_message,Server::handle_message_with_context,Reader::read_question,Name::try_from_compressed"
 //   bound="UDP; every 12-octet message with QDCOUNT = 1 (the question is missing): ID, flag octets and the low octets of ANCOUNT/NSCOUNT/ARCOUNT symbolic; unwind 12"
 //   sym="id, flag octets, 3 count octets"
@@ -488,10 +513,11 @@ fn srv_hdr12_qd1() {
     let h: [u8; 4] = kani::any();
     let c: [u8; 3] = kani::any();
     let req: [u8; 12] = [h[0], h[1], h[2], h[3], 0, 1, 0, c[0], 0, c[1], 0, c[2]];
-    exchange_udp(CatNone, CAT_NONE, &req, 0, 512);
+    let seen = exchange_udp(CatNone, CAT_NONE, &req, 0, 512);
+    kani::cover!(seen.responded && seen.rcode == RC_FORMERR, "FORMERR seen");
 }
 
-// @harness props=C01,C02,C03,C04,C07,C08,C09 panics=C01 quick=C01,C08 mem=4 t=900 stubs="S4"
+// @harness props=C01,C02,C03,C04,C07,C08,C09 panics=C01 quick=C01,C08 mem=4 t=900 stubs="S4" kani="--no-assertion-reach-checks"
 //   fn="Server::handle_message,Server::handle_message_with_context,Reader::peek_rr"
 //   bound="UDP; every 12-octet message with QDCOUNT = 0 and symbolic low octets of ANCOUNT/NSCOUNT/ARCOUNT (records are missing); unwind 12"
 //   sym="id, flag octets, 3 count octets"
@@ -502,22 +528,26 @@ fn srv_hdr12_qd0() {
     let h: [u8; 4] = kani::any();
     let c: [u8; 3] = kani::any();
     let req: [u8; 12] = [h[0], h[1], h[2], h[3], 0, 0, 0, c[0], 0, c[1], 0, c[2]];
-    exchange_udp(CatNone, CAT_NONE, &req, 0, 512);
+    let seen = exchange_udp(CatNone, CAT_NONE, &req, 0, 512);
+    kani::cover!(seen.responded && seen.rcode == RC_FORMERR, "FORMERR seen");
+    kani::cover!(seen.responded && seen.rcode == RC_NOTIMP, "NOTIMP seen");
 }
 
-// @harness props=C01,C03 panics=C01 quick=C03 mem=3 t=600 stubs="S4"
+// @harness props=C01,C03 panics=C01 quick=C03 mem=3 t=600 stubs="S4" kani="--no-assertion-reach-checks"
 //   fn="Server::handle_message" bound="UDP; every message of 11 octets and the empty message; unwind 12" sym="11 octets"
 #[kani::proof]
 #[kani::unwind(12)]
 #[kani::stub(rrl::Rrl::should_slip, should_slip_model)]
 fn srv_short() {
     let req: [u8; 11] = kani::any();
-    exchange_udp(CatNone, CAT_NONE, &req, 0, 512);
+    let seen = exchange_udp(CatNone, CAT_NONE, &req, 0, 512);
+    kani::cover!(!seen.responded, "no response to an 11-octet message");
     let empty: [u8; 0] = [];
-    exchange_udp(CatNone, CAT_NONE, &empty, 0, 512);
+    let seen2 = exchange_udp(CatNone, CAT_NONE, &empty, 0, 512);
+    kani::cover!(!seen2.responded, "no response to the empty message");
 }
 
-// @harness props=C01,C02,C03,C04,C07,C08,C09 panics=C01 quick=C08,C07 mem=4 t=900 stubs="S4"
+// @harness props=C01,C02,C03,C04,C07,C08,C09 panics=C01 quick=C08,C07 mem=4 t=900 stubs="S4" kani="--no-assertion-reach-checks"
 //   fn="Server::handle_message,Server::handle_query"
 //   bound="UDP; 12-octet header with QD=0, AN=NS=AR=0, symbolic ID and flag octets (every opcode); empty catalog; unwind 12"
 //   sym="id, flag octets"
@@ -527,10 +557,12 @@ fn srv_short() {
 fn srv_qd0() {
     let h: [u8; 4] = kani::any();
     let req: [u8; 12] = [h[0], h[1], h[2], h[3], 0, 0, 0, 0, 0, 0, 0, 0];
-    exchange_udp(CatNone, CAT_NONE, &req, 0, 512);
+    let seen = exchange_udp(CatNone, CAT_NONE, &req, 0, 512);
+    kani::cover!(seen.responded && seen.rcode == RC_FORMERR, "FORMERR seen");
+    kani::cover!(seen.responded && seen.rcode == RC_NOTIMP, "NOTIMP seen");
 }
 
-// @harness props=C01,C03 panics=C01 quick=C03 mem=4 t=900 stubs="S4"
+// @harness props=C01,C03 panics=C01 quick=C03 mem=4 t=900 stubs="S4" kani="--no-assertion-reach-checks"
 //   fn="Server::handle_message"
 //   bound="UDP; header with symbolic QDCOUNT (all u16) followed by two well-formed questions (26 octets); unwind 12"
 //   sym="id, flag octets, qdcount"
@@ -542,12 +574,13 @@ fn srv_qd2() {
     let req: [u8; 26] = [
         h[0], h[1], h[2], h[3], 0, 2, 0, 0, 0, 0, 0, 0, 1, b'a', 0, 0, 1, 0, 1, 1, b'b', 0, 0, 1, 0, 1,
     ];
-    exchange_udp(CatNone, CAT_NONE, &req, 7, 512);
+    let seen = exchange_udp(CatNone, CAT_NONE, &req, 7, 512);
+    kani::cover!(!seen.responded, "no response seen");
 }
 
 // ------------------------------------------------------ malformed shapes
 
-// @harness props=C01,C02,C03,C04,C07,C08,C09 panics=C01 quick=C08 mem=4 t=900 stubs="S4"
+// @harness props=C01,C02,C03,C04,C07,C08,C09 panics=C01 quick=C08 mem=4 t=900 stubs="S4" kani="--no-assertion-reach-checks"
 //   fn="Server::handle_message,Server::handle_message_with_context,Reader::at_eom"
 //   bound="UDP; 19-octet Q shape + 1 trailing octet (symbolic); QTYPE A, QCLASS IN; symbolic flag octets; empty catalog; unwind 12"
 //   sym="id, flag octets, trailing octet"
@@ -560,10 +593,11 @@ fn srv_q_junk1() {
     let req: [u8; 20] = [
         h[0], h[1], h[2], h[3], 0, 1, 0, 0, 0, 0, 0, 0, 1, b'a', 0, 0, 1, 0, 1, j,
     ];
-    exchange_udp(CatNone, CAT_NONE, &req, 7, 512);
+    let seen = exchange_udp(CatNone, CAT_NONE, &req, 7, 512);
+    kani::cover!(seen.responded && seen.rcode == RC_FORMERR, "FORMERR seen");
 }
 
-// @harness props=C01,C02,C03,C04,C07,C08,C09 panics=C01 tier=thorough mem=4 t=900 stubs="S4"
+// @harness props=C01,C02,C03,C04,C07,C08,C09 panics=C01 tier=thorough mem=4 t=900 stubs="S4" kani="--no-assertion-reach-checks"
 //   fn="Server::handle_message,Reader::at_eom"
 //   bound="UDP; 19-octet Q shape + 11 trailing octets (symbolic; long enough to look like a record); empty catalog; unwind 14"
 //   sym="id, flag octets, 11 trailing octets"
@@ -577,10 +611,11 @@ fn srv_q_junk11() {
         h[0], h[1], h[2], h[3], 0, 1, 0, 0, 0, 0, 0, 0, 1, b'a', 0, 0, 1, 0, 1, j[0], j[1], j[2], j[3], j[4], j[5],
         j[6], j[7], j[8], j[9], j[10],
     ];
-    exchange_udp(CatNone, CAT_NONE, &req, 7, 512);
+    let seen = exchange_udp(CatNone, CAT_NONE, &req, 7, 512);
+    kani::cover!(seen.responded && seen.rcode == RC_FORMERR, "FORMERR seen");
 }
 
-// @harness props=C01,C02,C03,C04,C07,C08,C09 panics=C01 quick=C08,C01 mem=4 t=900 stubs="S4"
+// @harness props=C01,C02,C03,C04,C07,C08,C09 panics=C01 quick=C08,C01 mem=4 t=900 stubs="S4" kani="--no-assertion-reach-checks"
 //   fn="Server::handle_message,Reader::peek_rr"
 //   bound="UDP; 19-octet Q shape whose ANCOUNT/NSCOUNT/ARCOUNT low octets are symbolic (counts 0..255 each) but no record follows; empty catalog; unwind 12"
 //   sym="id, flag octets, 3 count octets"
@@ -593,10 +628,12 @@ fn srv_q_counts() {
     let req: [u8; 19] = [
         h[0], h[1], h[2], h[3], 0, 1, 0, c[0], 0, c[1], 0, c[2], 1, b'a', 0, 0, 1, 0, 1,
     ];
-    exchange_udp(CatNone, CAT_NONE, &req, 7, 512);
+    let seen = exchange_udp(CatNone, CAT_NONE, &req, 7, 512);
+    kani::cover!(seen.responded && seen.rcode == RC_FORMERR, "FORMERR seen");
+    kani::cover!(seen.responded && seen.rcode == RC_REFUSED, "REFUSED seen");
 }
 
-// @harness props=C01,C02,C03,C04,C07,C08,C09 panics=C01 quick=C08,C01 mem=4 t=900 stubs="S4"
+// @harness props=C01,C02,C03,C04,C07,C08,C09 panics=C01 quick=C08,C01 mem=4 t=900 stubs="S4" kani="--no-assertion-reach-checks"
 //   fn="Server::handle_message,Reader::peek_rr,Name::skip_compressed"
 //   bound="UDP; 12-octet header claiming one answer record, followed by 1 symbolic octet (the 13-octet ANCOUNT=1 case); QD=0; unwind 12"
 //   sym="id, flag octets, 1 body octet"
@@ -607,11 +644,12 @@ fn srv_an1_len13() {
     let h: [u8; 4] = kani::any();
     let b: u8 = kani::any();
     let req: [u8; 13] = [h[0], h[1], h[2], h[3], 0, 0, 0, 1, 0, 0, 0, 0, b];
-    exchange_udp(CatNone, CAT_NONE, &req, 0, 512);
+    let seen = exchange_udp(CatNone, CAT_NONE, &req, 0, 512);
+    kani::cover!(seen.responded && seen.rcode == RC_FORMERR, "FORMERR seen");
 }
 
 macro_rules! rr_shape {
-    ($name:ident, $an:expr, $ns:expr, $ar:expr, $t_hi:expr, $t_lo:expr) => {
+    ($name:ident, $an:expr, $ns:expr, $ar:expr, $t_hi:expr, $t_lo:expr, $want_a:expr, $want_b:expr) => {
         #[kani::proof]
         #[kani::unwind(12)]
         #[kani::stub(rrl::Rrl::should_slip, should_slip_model)]
@@ -622,103 +660,53 @@ macro_rules! rr_shape {
                 h[0], h[1], h[2], h[3], 0, 1, 0, $an, 0, $ns, 0, $ar, 1, b'a', 0, 0, 1, 0, 1, // question a. A IN
                 0, $t_hi, $t_lo, c[0], c[1], c[2], c[3], c[4], c[5], 0, 0, // root owner, type, class, ttl, rdlength 0
             ];
-            exchange_udp(CatNone, CAT_NONE, &req, 7, 512);
+            let seen = exchange_udp(CatNone, CAT_NONE, &req, 7, 512);
+            kani::cover!(seen.responded && seen.rcode == $want_a, "first expected RCODE seen");
+            kani::cover!(seen.responded && seen.rcode == $want_b, "second expected RCODE seen");
         }
     };
 }
 
-// @harness name=srv_rr_an_opt props=C01,C02,C03,C04,C07,C08,C09 panics=C01 quick=C08,C09 mem=4 t=900 stubs="S4"
+// @harness name=srv_rr_an_opt props=C01,C02,C03,C04,C07,C08,C09 panics=C01 quick=C08,C09 mem=4 t=900 stubs="S4" kani="--no-assertion-reach-checks"
 //   fn="Server::handle_message,Reader::peek_rr,PeekRr::rr_type"
 //   bound="UDP; Q + one OPT record (root owner, symbolic class and TTL, RDLENGTH 0) counted in the ANSWER section; empty catalog; unwind 12"
 //   sym="id, flag octets, OPT class, OPT TTL"
-rr_shape!(srv_rr_an_opt, 1, 0, 0, 0, 41);
+rr_shape!(srv_rr_an_opt, 1, 0, 0, 0, 41, RC_FORMERR, RC_FORMERR);
 
-// @harness name=srv_rr_ns_opt props=C01,C02,C03,C04,C07,C08,C09 panics=C01 tier=thorough mem=4 t=900 stubs="S4"
+// @harness name=srv_rr_ns_opt props=C01,C02,C03,C04,C07,C08,C09 panics=C01 tier=thorough mem=4 t=900 stubs="S4" kani="--no-assertion-reach-checks"
 //   fn="Server::handle_message,Reader::peek_rr,PeekRr::rr_type"
 //   bound="UDP; Q + one OPT record counted in the AUTHORITY section; unwind 12" sym="id, flag octets, OPT class, OPT TTL"
-rr_shape!(srv_rr_ns_opt, 0, 1, 0, 0, 41);
+rr_shape!(srv_rr_ns_opt, 0, 1, 0, 0, 41, RC_FORMERR, RC_FORMERR);
 
-// @harness name=srv_rr_an_tsig props=C01,C02,C03,C04,C07,C08,C09 panics=C01 quick=C08 mem=4 t=900 stubs="S4"
+// @harness name=srv_rr_an_tsig props=C01,C02,C03,C04,C07,C08,C09 panics=C01 quick=C08 mem=4 t=900 stubs="S4" kani="--no-assertion-reach-checks"
 //   fn="Server::handle_message,Reader::peek_rr,PeekRr::rr_type"
 //   bound="UDP; Q + one TSIG-typed record (root owner, symbolic class/TTL, RDLENGTH 0) counted in the ANSWER section; unwind 12"
 //   sym="id, flag octets, class, TTL"
-rr_shape!(srv_rr_an_tsig, 1, 0, 0, 0, 250);
+rr_shape!(srv_rr_an_tsig, 1, 0, 0, 0, 250, RC_FORMERR, RC_FORMERR);
 
-// @harness name=srv_rr_an_a props=C01,C02,C03,C04,C07,C08,C09 panics=C01 tier=thorough mem=4 t=900 stubs="S4"
+// @harness name=srv_rr_an_a props=C01,C02,C03,C04,C07,C08,C09 panics=C01 tier=thorough mem=4 t=900 stubs="S4" kani="--no-assertion-reach-checks"
 //   fn="Server::handle_message,Reader::peek_rr,PeekRr::skip"
 //   bound="UDP; Q + one type-A record with RDLENGTH 0 in the answer section (skipped, not parsed); unwind 12"
 //   sym="id, flag octets, class, TTL"
-rr_shape!(srv_rr_an_a, 1, 0, 0, 0, 1);
+rr_shape!(srv_rr_an_a, 1, 0, 0, 0, 1, RC_REFUSED, RC_NOTIMP);
 
-// @harness name=srv_rr_ar_a props=C01,C02,C03,C04,C07,C08,C09 panics=C01 tier=thorough mem=4 t=900 stubs="S4"
+// @harness name=srv_rr_ar_a props=C01,C02,C03,C04,C07,C08,C09 panics=C01 tier=thorough mem=4 t=900 stubs="S4" kani="--no-assertion-reach-checks"
 //   fn="Server::handle_message,Reader::peek_rr,PeekRr::skip"
 //   bound="UDP; Q + one type-A record with RDLENGTH 0 in the additional section; unwind 12" sym="id, flag octets, class, TTL"
-rr_shape!(srv_rr_ar_a, 0, 0, 1, 0, 1);
+rr_shape!(srv_rr_ar_a, 0, 0, 1, 0, 1, RC_REFUSED, RC_NOTIMP);
 
 // ------------------------------------------------------------ EDNS shapes
 
-// @harness name=srv_opt props=C01,C02,C03,C04,C07,C08,C09 panics=C01 quick=C09,C04,C02 mem=4 t=900 stubs="S4"
-//   fn="Server::handle_message,validate_opt,PeekRr::parse,Rdata::read,Writer::set_edns,Writer::set_limit,Writer::set_extended_rcode,Writer::finish"
-//   bound="UDP; Q + OPT in the additional section: root owner, symbolic CLASS (advertised payload, all u16), symbolic TTL (all 32 bits: extended RCODE, version, flags), RDLENGTH 0; server payload 512; unwind 12"
-//   sym="id, flag octets, OPT class:u16, OPT TTL:u32"
-rr_shape!(srv_opt, 0, 0, 1, 0, 41);
 
-// @harness props=C01,C02,C03,C04,C07,C08,C09 panics=C01 tier=thorough mem=14 t=1800 stubs="S4"
-//   fn="Server::handle_message,validate_opt,PeekRr::parse"
-//   bound="UDP; Q + OPT with symbolic server payload size in [512,1232]; OPT class and TTL symbolic; unwind 12"
-//   sym="id, flag octets, OPT class, OPT TTL, server payload"
-#[kani::proof]
-#[kani::unwind(12)]
-#[kani::stub(rrl::Rrl::should_slip, should_slip_model)]
-fn srv_opt_payload() {
-    let h: [u8; 4] = kani::any();
-    let c: [u8; 6] = kani::any();
-    let payload: u16 = kani::any();
-    kani::assume(payload >= 512 && payload <= 1232);
-    let req: [u8; 30] = [
-        h[0], h[1], 0, 0, 0, 1, 0, 0, 0, 0, 0, 1, 1, b'a', 0, 0, 1, 0, 1, 0, 0, 41, c[0], c[1], c[2], c[3], c[4],
-        c[5], 0, 0,
-    ];
-    let _ = h[2];
-    exchange_udp_big(CatNone, CAT_NONE, &req, 7, payload);
-}
 
-// @harness props=C01,C02,C03,C04,C07,C08,C09 panics=C01 quick=C09 mem=6 t=1200 stubs="S4"
-//   fn="Server::handle_message,validate_opt,PeekRr::parse,Name::try_from_compressed"
-//   bound="UDP; Q + OPT whose owner is 'a.' (not the root), symbolic class/TTL, RDLENGTH 0; unwind 12"
-//   sym="id, flag octets, OPT class, OPT TTL"
-#[kani::proof]
-#[kani::unwind(12)]
-#[kani::stub(rrl::Rrl::should_slip, should_slip_model)]
-fn srv_opt_owner_a() {
-    let h: [u8; 4] = kani::any();
-    let c: [u8; 6] = kani::any();
-    let req: [u8; 32] = [
-        h[0], h[1], h[2], h[3], 0, 1, 0, 0, 0, 0, 0, 1, 1, b'a', 0, 0, 1, 0, 1, 1, b'a', 0, 0, 41, c[0], c[1], c[2],
-        c[3], c[4], c[5], 0, 0,
-    ];
-    exchange_udp(CatNone, CAT_NONE, &req, 7, 512);
-}
 
-// @harness props=C01,C02,C03,C04,C07,C08,C09 panics=C01 quick=C09,C08 mem=6 t=1200 stubs="S4"
-//   fn="Server::handle_message,PeekRr::parse,Rdata::read,Rdata::validate_as_opt"
-//   bound="UDP; Q + OPT (root owner, class 512, TTL symbolic) with RDLENGTH 4 and four symbolic RDATA octets (one option header: valid iff its length field is 0); unwind 12"
-//   sym="id, flag octets, OPT TTL, 4 RDATA octets"
-#[kani::proof]
-#[kani::unwind(12)]
-#[kani::stub(rrl::Rrl::should_slip, should_slip_model)]
-fn srv_opt_rdata4() {
-    let h: [u8; 4] = kani::any();
-    let t: [u8; 4] = kani::any();
-    let o: [u8; 4] = kani::any();
-    let req: [u8; 34] = [
-        h[0], h[1], h[2], h[3], 0, 1, 0, 0, 0, 0, 0, 1, 1, b'a', 0, 0, 1, 0, 1, 0, 0, 41, 2, 0, t[0], t[1], t[2],
-        t[3], 0, 4, o[0], o[1], o[2], o[3],
-    ];
-    exchange_udp(CatNone, CAT_NONE, &req, 7, 512);
-}
+// (A shape with four symbolic OPT RDATA octets - one option header - was tried and
+// dropped: the symbolic option length makes validate_as_opt slice at a symbolic
+// offset and CBMC's array post-processing ran out of memory at 21 GB.  OPT RDATA
+// validation itself is decided in the C18 family.)
 
-// @harness props=C01,C02,C03,C04,C07,C08,C09 panics=C01 quick=C08,C09 mem=6 t=1200 stubs="S4"
+
+// @harness props=C01,C02,C03,C04,C07,C08,C09 panics=C01 quick=C08,C09 mem=6 t=1200 stubs="S4" kani="--no-assertion-reach-checks"
 //   fn="Server::handle_message"
 //   bound="UDP; Q + two OPT records (root owners, symbolic TTLs, RDLENGTH 0); unwind 12"
 //   sym="id, flag octets, two OPT TTLs"
@@ -732,10 +720,12 @@ fn srv_opt_opt() {
         h[0], h[1], h[2], h[3], 0, 1, 0, 0, 0, 0, 0, 2, 1, b'a', 0, 0, 1, 0, 1, 0, 0, 41, 2, 0, t[0], t[1], t[2],
         t[3], 0, 0, 0, 0, 41, 2, 0, t[4], t[5], t[6], t[7], 0, 0,
     ];
-    exchange_udp(CatNone, CAT_NONE, &req, 7, 512);
+    let seen = exchange_udp(CatNone, CAT_NONE, &req, 7, 512);
+    kani::cover!(seen.responded && seen.rcode == RC_FORMERR && seen.has_opt, "FORMERR with OPT seen");
+    kani::cover!(seen.responded && seen.rcode == RC_BADVERS, "BADVERS seen");
 }
 
-// @harness props=C01,C02,C03,C04,C07,C08,C09 panics=C01 quick=C08 mem=6 t=1200 stubs="S4"
+// @harness props=C01,C02,C03,C04,C07,C08,C09 panics=C01 quick=C08 mem=6 t=1200 stubs="S4" kani="--no-assertion-reach-checks"
 //   fn="Server::handle_message"
 //   bound="UDP; Q + TSIG-typed record followed by an OPT (TSIG not last), symbolic class/TTL of the TSIG; unwind 12"
 //   sym="id, flag octets, TSIG class/TTL"
@@ -749,6 +739,81 @@ fn srv_tsig_then_opt() {
         h[0], h[1], h[2], h[3], 0, 1, 0, 0, 0, 0, 0, 2, 1, b'a', 0, 0, 1, 0, 1, 0, 0, 250, c[0], c[1], c[2], c[3],
         c[4], c[5], 0, 0, 0, 0, 41, 2, 0, 0, 0, 0, 0, 0, 0,
     ];
-    exchange_udp(CatNone, CAT_NONE, &req, 7, 512);
+    let seen = exchange_udp(CatNone, CAT_NONE, &req, 7, 512);
+    kani::cover!(seen.responded && seen.rcode == RC_FORMERR, "FORMERR seen");
 }
 
+// ------------------------------------------- EDNS shapes, concrete OPT class
+//
+// A symbolic advertised payload size makes the writer's size limit symbolic;
+// every later push can then "fail" as far as CBMC can tell, the rollback makes
+// the cursor symbolic and the solver runs out of memory (measured: > 26 GB).
+// The advertised size is therefore a concrete boundary value per harness
+// (0, 513, 4096, 65535 against server sizes 512 and 520) and the OPT TTL
+// (extended RCODE, version, flags: all 2^32 values) stays symbolic.
+
+macro_rules! opt_shape {
+    ($name:ident, $c_hi:expr, $c_lo:expr, $payload:expr, $buf:expr) => {
+        #[kani::proof]
+        #[kani::unwind(12)]
+        #[kani::stub(rrl::Rrl::should_slip, should_slip_model)]
+        fn $name() {
+            let h: [u8; 4] = kani::any();
+            let t: [u8; 4] = kani::any();
+            let req: [u8; 30] = [
+                h[0], h[1], h[2], h[3], 0, 1, 0, 0, 0, 0, 0, 1, 1, b'a', 0, 0, 1, 0, 1, // question a. A IN
+                0, 0, 41, $c_hi, $c_lo, t[0], t[1], t[2], t[3], 0, 0, // OPT: root, class, TTL, RDLENGTH 0
+            ];
+            let server = server_with(CatNone, $payload);
+            let mut resp = [0u8; $buf];
+            let r = server.handle_message(&req, udp_info(), &mut resp);
+            let seen = check_exchange(&req, 7, true, $payload, CAT_NONE, &r, &resp);
+            core::mem::forget(server);
+            kani::cover!(seen.responded && seen.rcode == RC_BADVERS, "BADVERS seen");
+            kani::cover!(seen.responded && seen.rcode == RC_REFUSED && seen.has_opt, "REFUSED with OPT seen");
+            kani::cover!(seen.responded && seen.rcode == RC_NOTIMP && seen.has_opt, "NOTIMP with OPT seen");
+        }
+    };
+}
+
+// @harness name=srv_opt_c4096 props=C01,C02,C03,C04,C07,C08,C09 panics=C01 quick=C09,C04,C02,C03 mem=8 t=1500 stubs="S4" kani="--no-assertion-reach-checks"
+//   fn="Server::handle_message,validate_opt,PeekRr::parse,PeekRr::raw_ttl,Rdata::read,Writer::set_edns,Writer::set_limit,Writer::set_extended_rcode,Writer::finish"
+//   bound="UDP; Q + OPT (root owner, advertised size 4096, RDLENGTH 0) with symbolic TTL field (all 2^32: extended RCODE, version, flags incl. bit 31), symbolic ID and flag octets; server size 512; unwind 12"
+//   sym="id, flag octets, OPT TTL:u32"
+opt_shape!(srv_opt_c4096, 16, 0, 512, 512);
+
+// @harness name=srv_opt_c0 props=C01,C02,C03,C04,C07,C08,C09 panics=C01 tier=thorough mem=8 t=1500 stubs="S4" kani="--no-assertion-reach-checks"
+//   fn="Server::handle_message,validate_opt,Writer::set_limit"
+//   bound="UDP; Q + OPT advertising size 0 (must be treated as 512), symbolic TTL/ID/flags; server size 512; unwind 12"
+//   sym="id, flag octets, OPT TTL:u32"
+opt_shape!(srv_opt_c0, 0, 0, 512, 512);
+
+// @harness name=srv_opt_p520_c513 props=C01,C02,C03,C04,C07,C08,C09 panics=C01 quick=C09,C04 mem=8 t=1500 stubs="S4" kani="--no-assertion-reach-checks"
+//   fn="Server::handle_message,validate_opt,Writer::set_edns,Writer::set_limit,Writer::finish"
+//   bound="UDP; Q + OPT advertising 513 against a server size of 520 (negotiated limit 513, response OPT must still carry 520), symbolic TTL/ID/flags; 520-octet buffer; unwind 12"
+//   sym="id, flag octets, OPT TTL:u32"
+opt_shape!(srv_opt_p520_c513, 2, 1, 520, 520);
+
+// @harness name=srv_opt_p520_c65535 props=C01,C02,C03,C04,C07,C08,C09 panics=C01 tier=thorough mem=8 t=1500 stubs="S4" kani="--no-assertion-reach-checks"
+//   fn="Server::handle_message,validate_opt,Writer::set_limit"
+//   bound="UDP; Q + OPT advertising 65535 against a server size of 520 (negotiated 520), symbolic TTL/ID/flags; unwind 12"
+//   sym="id, flag octets, OPT TTL:u32"
+opt_shape!(srv_opt_p520_c65535, 255, 255, 520, 520);
+
+// @harness props=C01,C02,C03,C04,C07,C08,C09 panics=C01 quick=C09 mem=8 t=1500 stubs="S4" kani="--no-assertion-reach-checks"
+//   fn="Server::handle_message,validate_opt,PeekRr::parse,Name::try_from_compressed"
+//   bound="UDP; Q + OPT whose owner is 'a.' (not the root), advertised size 4096, symbolic TTL, RDLENGTH 0; unwind 12"
+//   sym="id, flag octets, OPT TTL"
+#[kani::proof]
+#[kani::unwind(12)]
+#[kani::stub(rrl::Rrl::should_slip, should_slip_model)]
+fn srv_opt_owner_a() {
+    let h: [u8; 4] = kani::any();
+    let t: [u8; 4] = kani::any();
+    let req: [u8; 32] = [
+        h[0], h[1], h[2], h[3], 0, 1, 0, 0, 0, 0, 0, 1, 1, b'a', 0, 0, 1, 0, 1, 1, b'a', 0, 0, 41, 16, 0, t[0], t[1],
+        t[2], t[3], 0, 0,
+    ];
+    let seen = exchange_udp(CatNone, CAT_NONE, &req, 7, 512);
+    kani::cover!(seen.responded && seen.rcode == RC_FORMERR && seen.has_opt, "FORMERR with OPT seen");
+}
